@@ -113,7 +113,7 @@ def load_known(prop):
 
 
 def write_replay(prop, v, idx):
-    d = os.path.join(VERIF, "out", "replays")
+    d = os.path.join(os.environ.get("VERIF_OUT_DIR") or os.path.join(VERIF, "out"), "replays")
     os.makedirs(d, exist_ok=True)
     sh = hashlib.sha1(v["sig"].encode()).hexdigest()[:10]
     path = os.path.join(d, f"{prop}-{sh}-{idx}.json")
@@ -180,7 +180,7 @@ def write_evidence(mod, tier, seed, agg, wall, nviol, exhaustive=True):
         "wall_s": round(wall, 2),
         "violations": nviol,
     }
-    d = os.path.join(VERIF, "evidence")
+    d = os.environ.get("VERIF_EVIDENCE_DIR") or os.path.join(VERIF, "evidence")
     os.makedirs(d, exist_ok=True)
     path = os.path.join(d, f"{mod.PROPERTY}.json")
     with open(path, "w") as f:
